@@ -174,6 +174,27 @@ def classify(a, b, program=""):
     return None
 
 
+def suspended_creator(program):
+    """witness class of `create-uaf-suspended-creator`: some actor that creates actors is the target of a suspend"""
+    ops, susp = {}, set()
+    for l in program.split("\n"):
+        f = l.split()
+        if len(f) >= 5 and f[0] == "actor":
+            ops[f[1]] = f[4].split(",")
+            for o in ops[f[1]]:
+                if o.startswith("susp."):
+                    susp.add(o.split(".")[1])
+    return any(any(o.startswith("create.") for o in ops.get(t, [])) for t in susp)
+
+
+def classify_outcomes(o1, o2, program):
+    """key for a difference of OUTCOME (one layout crashes, the other does not)"""
+    crash = [o for o in (o1, o2) if o in ("sig=11", "sig=6")]
+    if crash and suspended_creator(program):
+        return "create-uaf-suspended-creator"
+    return None
+
+
 def load_corpus(pdir):
     """corpus.txt: programs separated by lines `=== <name>`"""
     progs, name, cur = [], None, []
